@@ -118,6 +118,34 @@ func readFindings(path string) ([]Finding, error) {
 	return out, nil
 }
 
+var ordinalRe = regexp.MustCompile(`#\d+`)
+
+// claimKey: the name under which an obligation is claimed in the baseline. Ordinals of call sites, guarded accesses and
+// sends are dropped (every site of that kind in the function is claimed); the zero-annotation safety obligations of a
+// function are claimed as a whole (any failing one is a violation, however the instructions are numbered).
+func claimKey(o *Obligation) string {
+	switch o.Kind {
+	case "safe":
+		i := strings.LastIndex(o.Name, ":safe[")
+		if i >= 0 {
+			return o.Name[:i] + ":safe"
+		}
+	case "pre", "spawn", "guard", "chan":
+		return ordinalRe.ReplaceAllString(o.Name, "")
+	}
+	return o.Name
+}
+
+// missingIsViolation: a claimed key for which no obligation is generated any more.
+func missingIsViolation(key string) bool {
+	for _, k := range []string{":safe", ":pre[", ":spawn[", ":guard[", ":chan["} {
+		if strings.Contains(key, k) {
+			return false // the function, call site or access was removed: nothing left that could violate the clause
+		}
+	}
+	return true
+}
+
 func readLines(path string) []string {
 	data, err := os.ReadFile(path)
 	if err != nil {
@@ -384,6 +412,7 @@ func cmdCheck(args []string) int {
 	byName := map[string]*Obligation{}
 	for _, o := range obs {
 		byName[o.Name] = o
+		byName[claimKey(o)] = o
 	}
 	replayDir := filepath.Join(*verif, "evidence", "replay")
 	if *replayDirFlag != "" {
@@ -400,9 +429,18 @@ func cmdCheck(args []string) int {
 	}
 	if *writeBaseline {
 		var lines []string
+		bad := map[string]bool{}
 		for _, o := range obs {
-			if o.Status == "discharged" && !noclaim(o.Name) {
-				lines = append(lines, o.Name)
+			if o.Status != "discharged" || noclaim(o.Name) {
+				bad[claimKey(o)] = true
+			}
+		}
+		seenKey := map[string]bool{}
+		for _, o := range obs {
+			k := claimKey(o)
+			if !bad[k] && !seenKey[k] {
+				seenKey[k] = true
+				lines = append(lines, k)
 			}
 		}
 		sort.Strings(lines)
@@ -424,7 +462,7 @@ func cmdCheck(args []string) int {
 		fmt.Printf("VIOLATION property=%s replay=%s obligation=%s (%s)%s\n", *prop, path, o.Name, why, suffix)
 	}
 	for _, o := range obs {
-		claimed := baseline[o.Name]
+		claimed := baseline[claimKey(o)]
 		if _, isKnown := known[o.Name]; isKnown {
 			if o.Status != "discharged" {
 				f := known[o.Name]
@@ -469,6 +507,9 @@ func cmdCheck(args []string) int {
 		for _, n := range bl {
 			if _, ok := byName[n]; !ok {
 				if _, isKnown := known[n]; isKnown {
+					continue
+				}
+				if !missingIsViolation(n) {
 					continue
 				}
 				total++
@@ -549,8 +590,8 @@ func writeEvidence(path string, ps *PropSpec, tier string, seed int, obs []*Obli
 	var recs []obRec
 	bySolver := map[string]int{}
 	for _, o := range obs {
-		recs = append(recs, obRec{o.Name, o.Status, o.Solver, o.Ms, len(o.Queries), o.Trivial, baseline[o.Name], o.Clause})
-		if baseline[o.Name] && o.Status == "discharged" {
+		recs = append(recs, obRec{o.Name, o.Status, o.Solver, o.Ms, len(o.Queries), o.Trivial, baseline[claimKey(o)], o.Clause})
+		if baseline[claimKey(o)] && o.Status == "discharged" {
 			bySolver[o.Solver]++
 		}
 	}
@@ -587,7 +628,7 @@ func writeEvidence(path string, ps *PropSpec, tier string, seed int, obs []*Obli
 	trusted = append(trusted, ps.Trusted...)
 	var samples []interface{}
 	for _, o := range obs {
-		if baseline[o.Name] && len(o.Queries) > 0 && len(samples) < 3 {
+		if baseline[claimKey(o)] && len(o.Queries) > 0 && len(samples) < 3 {
 			text := o.Queries[0].Render(false)
 			if len(text) > 6000 {
 				text = text[:6000] + "\n... (truncated)"
